@@ -4,6 +4,7 @@ import (
 	"go/constant"
 	"go/token"
 	"go/types"
+	"strings"
 
 	"golang.org/x/tools/go/ssa"
 )
@@ -94,6 +95,8 @@ type sengine struct {
 	param      func(fn *ssa.Function, prm *ssa.Parameter) (iv, bool)
 	builtin    func(p *spath, fr *sframe, call *ssa.Call, name string, args []iv) (iv, bool)
 	lookup     func(p *spath, fr *sframe, x *ssa.Lookup, m, key iv) (iv, bool)
+	store      func(p *spath, fr *sframe, x *ssa.Store, addr, val iv) // observes every store
+	modulePure bool                                                   // small functions of other packages of the module are entered on concrete arguments
 	stopBlocks map[*ssa.BasicBlock]bool // a path of the function under analysis ends when it enters one of these
 	outcomes   []soutcome
 	budget     int
@@ -116,6 +119,8 @@ func (e *sengine) val(fr *sframe, v ssa.Value) iv {
 			}
 		case constant.Bool:
 			return ivBool(constant.BoolVal(x.Value))
+		case constant.String:
+			return iv{k: 'S', s: constant.StringVal(x.Value)}
 		}
 	case *ssa.Function:
 		return iv{k: 'f', fn: x}
@@ -307,6 +312,9 @@ func (e *sengine) doCall(p *spath, fr *sframe, x *ssa.Call) (stopped bool) {
 			if a := e.val(fr, x.Call.Args[0]); a.k == 'a' {
 				fr.vals[x] = ivInt(int64(len(*a.arr)))
 				return false
+			} else if a.k == 'S' {
+				fr.vals[x] = ivInt(int64(len(a.s))) // a concrete string (a representative value)
+				return false
 			}
 		}
 		if e.builtin != nil {
@@ -349,10 +357,29 @@ func (e *sengine) doCall(p *spath, fr *sframe, x *ssa.Call) (stopped bool) {
 			return true
 		}
 	}
+	// library functions over concrete strings are folded (a representative value is run through the code)
+	if callee != nil && (callee.Pkg == nil || callee.Pkg != e.pkg) {
+		if r, ok := foldStringCall(callee, args); ok {
+			fr.vals[x] = r
+			return false
+		}
+	}
 	if callee == nil || len(callee.Blocks) == 0 || len(p.stack) >= 6 {
 		return false
 	}
-	if callee.Pkg != e.pkg || (e.enter != nil && !e.enter(callee, args)) {
+	if callee.Pkg != e.pkg {
+		// a function of another package of the module may be entered when every argument is a concrete value (a pure
+		// helper such as compiler.AddRegexFlags applied to a representative string)
+		concrete := e.modulePure && callee.Pkg != nil && strings.HasPrefix(callee.Pkg.Pkg.Path(), modPath) && len(args) > 0 && len(callee.Blocks) < 12
+		for _, a := range args {
+			if a.k != 'S' && a.k != 'i' && a.k != 'b' {
+				concrete = false
+			}
+		}
+		if !concrete {
+			return false
+		}
+	} else if e.enter != nil && !e.enter(callee, args) {
 		return false
 	}
 	nf := &sframe{fn: callee, vals: map[ssa.Value]iv{}, call: x, blk: callee.Blocks[0]}
@@ -433,6 +460,24 @@ func (e *sengine) step(p *spath, fr *sframe, in ssa.Instruction) {
 				fr.vals[x] = ivInt(a.i - b.i)
 			case token.EQL, token.NEQ, token.LSS, token.LEQ, token.GTR, token.GEQ:
 				fr.vals[x] = ivBool(cmpInt(int(a.i), x.Op, int(b.i)))
+			}
+			return
+		case a.k == 'S' && b.k == 'S':
+			switch x.Op {
+			case token.ADD:
+				fr.vals[x] = iv{k: 'S', s: a.s + b.s}
+			case token.EQL:
+				fr.vals[x] = ivBool(a.s == b.s)
+			case token.NEQ:
+				fr.vals[x] = ivBool(a.s != b.s)
+			case token.LSS:
+				fr.vals[x] = ivBool(a.s < b.s)
+			case token.LEQ:
+				fr.vals[x] = ivBool(a.s <= b.s)
+			case token.GTR:
+				fr.vals[x] = ivBool(a.s > b.s)
+			case token.GEQ:
+				fr.vals[x] = ivBool(a.s >= b.s)
 			}
 			return
 		case a.k == 'b' && b.k == 'b':
@@ -542,6 +587,8 @@ func (e *sengine) step(p *spath, fr *sframe, in ssa.Instruction) {
 			if ch, ok := a.tree.index(i.i); ok {
 				fr.vals[x] = treeVal(ch)
 			}
+		} else if a.k == 'S' && i.k == 'i' && i.i >= 0 && int(i.i) < len(a.s) {
+			fr.vals[x] = ivInt(int64(a.s[i.i]))
 		}
 	case *ssa.Field:
 		base := e.val(fr, x.X)
@@ -578,9 +625,32 @@ func (e *sengine) step(p *spath, fr *sframe, in ssa.Instruction) {
 	case *ssa.Slice:
 		if a := e.val(fr, x.X); a.k == 'a' && x.Low == nil && x.High == nil {
 			fr.vals[x] = a
+		} else if a.k == 'S' {
+			lo, hi := int64(0), int64(len(a.s))
+			okB := true
+			if x.Low != nil {
+				if v := e.val(fr, x.Low); v.k == 'i' {
+					lo = v.i
+				} else {
+					okB = false
+				}
+			}
+			if x.High != nil {
+				if v := e.val(fr, x.High); v.k == 'i' {
+					hi = v.i
+				} else {
+					okB = false
+				}
+			}
+			if okB && lo >= 0 && lo <= hi && hi <= int64(len(a.s)) {
+				fr.vals[x] = iv{k: 'S', s: a.s[lo:hi]}
+			}
 		}
 	case *ssa.Store:
 		a := e.val(fr, x.Addr)
+		if e.store != nil {
+			e.store(p, fr, x, a, e.val(fr, x.Val))
+		}
 		switch {
 		case a.k == 'e' && a.idx >= 0 && a.idx < len(*a.arr):
 			(*a.arr)[a.idx] = e.val(fr, x.Val)
